@@ -65,6 +65,16 @@ def run_one(args):
                 ast.parse(open(os.path.join(tmp, e[0]), encoding="utf-8").read())
             except SyntaxError as ex:
                 return {"id": mut["id"], "expect": mut["expect"], "result": "broken-mutant", "why": str(ex)}
+        if os.environ.get("VERIF_AUDIT_RENAME") == "1":
+            # stress variant of the audit: every local of the mutated tree is renamed before the check sees it - the verdicts
+            # must not change (the name normalisation has to find the correspondence on *changed* code too)
+            src_ = open(os.path.join(VERIF, "tools", "alpha_rename.py")).read().rsplit("\nmain()", 1)[0]
+            ns_ = {"__name__": "alpha_rename_tool", "__file__": os.path.join(VERIF, "tools", "alpha_rename.py")}
+            exec(compile(src_, "alpha_rename.py", "exec"), ns_)
+            for root_, _d, fs_ in os.walk(os.path.join(tmp, "ak")):
+                for fn_ in fs_:
+                    if fn_.endswith(".py"):
+                        ns_["rename_file"](os.path.join(root_, fn_), "_q")
         sys.path.insert(0, VERIF)
         chk = _load_check()
         buf = io.StringIO()
